@@ -1,6 +1,7 @@
 """Stream generators for the whole-decoder checks (C01, also used by C17): structured Teletext networks
 (normal pages, Level 2.5 enhancement, MOT / POP / DRCS / MIP / TOP pages, 8/30), caption + XDS + ITV streams,
 VPS, WSS, noise - every random choice comes from the `rng` passed in."""
+import random
 import ttxenc as T
 from ttxenh import pack_bits, x27_4, lut_packets, top_link
 
@@ -471,6 +472,74 @@ def search_ops(rng, net):
 # parsers read (packet.c parse_mot / parse_pop / parse_27 / parse_28_29 / parse_btt / parse_ait / parse_mpt[_ex]).
 TERM = (0x3F, 0x1F, 0x7F)
 
+# cases per corner of the cell address machine of teletext.c enhance() (what the generator placed on a page that is then
+# fetched at Level 2.5 / 3.5); filled by enh_case(), reported by checks/C01.py as coverage.cell_corner_reach
+CELL_REACH = {}
+FONT_CODES = [0x00, 0x01, 0x07, 0x08, 0x10, 0x20, 0x24, 0x25, 0x26, 0x27, 0x28, 0x35, 0x36, 0x37, 0x38, 0x40, 0x44, 0x47, 0x48,
+              0x55, 0x56, 0x57, 0x58, 0x7F]          # G0 sets, the holes of vbi_font_descriptors[88], 87 / 88, the largest byte
+
+
+def cell_corners(r, s1_codes, tags, in_object=False):
+    """triplets that drive the address machine of enhance() / enhance_flush() to one of its corners; `tags` collects which"""
+    def row_addr(row): return 40 + (row % 24)            # address 40 = row 24
+    k = r.choice(["last_cell", "last_cell", "dsize_last_row", "dsize_last_col", "dwidth_col39", "row0", "full_row_edge",
+                  "color_col39", "drcs_subcodes", "drcs_subcodes", "fonts", "font_style", "backward", "origin_edge", "box_term"]
+                 + (["origin_cells"] * 5 if in_object else []))
+    tags.add(("obj_" if in_object else "") + k)
+    out = []
+    if k == "origin_cells":                               # an object writing at its own origin (row 0 of the object, columns 0 ... 9)
+        out += [(0, 0x09, 0x4F), (r.choice([1, 5, 9]), 0x09, 0x42), (r.choice([9, 10, 39]), r.choice([0x09, 0x0C, 0x00]), 0x43)]
+        if r.random() < 0.5: out.append((41, 0x04, r.choice([0, 9])))       # and in its row 1
+    elif k == "last_cell":                                  # row 24 / 23, column 39: the last cells of body and page
+        row = r.choice([24, 24, 23])
+        out += [(row_addr(row), 0x04, 39), (39, r.choice([0x09, 0x0F, 0x10, 0x1F, 0x02]), r.randrange(0x20, 0x80))]
+        if r.random() < 0.5: out += [(row_addr(row), 0x04, 38), (38, 0x09, 0x41), (39, 0x09, 0x42)]
+    elif k == "dsize_last_row":                           # double height / size in rows 23, 24: the row below is the last / none
+        row = r.choice([24, 23, 22])
+        col = r.choice([0, 20, 37, 38, 39])
+        out += [(row_addr(row), 0x04, col), (col, 0x0C, r.choice([0x41, 0x01, 0x40])), (col, 0x09, 0x41)]
+        if col < 39: out.append((col + 1, 0x09, 0x42))
+    elif k == "dsize_last_col":                           # double width / size starting in columns 38, 39
+        row = r.choice([1, 10, 22, 23, 24])
+        col = r.choice([39, 39, 38])
+        out += [(row_addr(row), 0x04, col), (col, 0x0C, r.choice([0x41, 0x40])), (col, 0x09, 0x57)]
+    elif k == "dwidth_col39":
+        out += [(row_addr(r.choice([1, 12, 24])), 0x04, 0), (0, 0x0C, 0x40)] + [(c, 0x09, 0x41 + c % 26) for c in (0, 10, 37, 38, 39)]
+    elif k == "row0":                                     # address display row 0 (mode 0x07 needs address 0x3F), header cells 0..8 and 39
+        out += [(0x3F, 0x07, r.choice([0, 0x03, 0x60 | 5])), (r.choice([0, 7, 8, 9]), 0x09, 0x41), (39, 0x09, 0x5A)]
+        if r.random() < 0.3: out.append((r.randrange(40, 63), 0x07, 0))      # reserved: no position
+    elif k == "full_row_edge":                            # full row colour in the last rows: flush of a whole row
+        row = r.choice([24, 23, 1])
+        out += [(row_addr(row), 0x01, r.choice([0, 0x60]) | r.randrange(32)), (0, 0x00, r.randrange(32)), (39, 0x03, r.randrange(32)),
+                (39, 0x09, 0x41)]
+    elif k == "color_col39":                              # colours changing at column 39 (for an adaptive object: its last cell)
+        row = r.choice([24, 2, 23])
+        out += [(row_addr(row), 0x04, 38), (38, 0x00, r.randrange(32)), (39, 0x03, r.randrange(32)), (39, 0x00, r.randrange(32)),
+                (39, 0x0C, r.randrange(128)), (39, 0x07, r.randrange(4)), (39, 0x09, 0x41)]
+    elif k == "drcs_subcodes":                            # DRCS mode for both tables with every sub-code, glyphs 0 / 23 / 47 / 48 / 63
+        normal = r.randrange(2)
+        s1 = r.choice(s1_codes + [r.randrange(16), 15, 0])
+        out += [(row_addr(r.randrange(1, 25)), 0x18, (normal << 6) | s1), (row_addr(r.choice([24, 1, 23])), 0x04, r.choice([0, 38, 39]))]
+        for g in r.sample([0, 1, 23, 24, 46, 47, 48, 63], 3):
+            out.append((r.choice([38, 39, r.randrange(40)]), 0x0D, (normal << 6) | g))
+    elif k == "fonts":                                    # modified G0 / G2 designation: valid sets, holes, 87, 88, 127
+        out += [(row_addr(r.choice([24, 5])), 0x04, 0)]
+        for c, code in enumerate(r.sample(FONT_CODES, 4)):
+            out += [(c * 9, 0x08, code), (c * 9 + 1, 0x09, 0x23), (c * 9 + 2, 0x0F, 0x24)]
+        out.append((39, 0x08, r.choice([0x57, 0x58, 0x7F])))
+    elif k == "font_style":                               # Level 3.5 font style over up to 16 rows from the last rows / columns
+        row = r.choice([24, 23, 10, 1])
+        out += [(row_addr(row), 0x04, r.choice([0, 39])), (r.choice([0, 38, 39]), 0x0E, (r.choice([15, 15, 1, 0]) << 4) | r.randrange(8))]
+    elif k == "backward":                                 # column addresses going backwards / the same row addressed again
+        row = r.choice([24, 12])
+        out += [(row_addr(row), 0x04, 39), (39, 0x09, 0x41), (10, 0x09, 0x42), (row_addr(row), 0x04, 5), (39, 0x09, 0x43),
+                (row_addr(row - 1), 0x04, 39), (39, 0x09, 0x44)]
+    elif k == "origin_edge":                              # origin modifier alone (it applies to the next invocation)
+        out += [(row_addr(r.choice([24, 1, 2])), 0x04, r.choice([39, 0, 1])), (40 + r.choice([23, 22, 0]), 0x10, r.choice([71, 70, 39, 40, 0, 72]))]
+    else:                                                 # box_term: attributes flushed over Level 1 start / end box pairs
+        out += [(row_addr(r.choice([24, 3])), 0x04, 0), (0, 0x0C, 0x02), (0, 0x00, 3), (39, 0x09, 0x41)]
+    return out
+
 
 def x26_sequence_damage(r, ds):
     """designation sequence with one packet out of order and more packets after it"""
@@ -521,6 +590,10 @@ class L25:
         self.announce = r.random() < 0.35            # MIP tells the page types before the pages arrive
         self.pop_with_x26 = r.random() < 0.5
         self.defs = {}
+        self.corners = set()                         # corners of the cell address machine this network drives (see CELL_REACH)
+        # everything the cell-corner additions draw comes from a generator of their own, seeded by the network's parameters:
+        # the main stream - and with it every case the earlier rounds validated at the standard seeds - stays what it was
+        self.r2 = random.Random(repr((self.m, self.serial, self.lops, self.gpop, self.pops, self.gdrcs, self.drcs, sorted(self.s1.items()))))
         self.make_objects()
 
     def pgno(self, page):
@@ -552,6 +625,12 @@ class L25:
     def obj_body(self, typ, page, depth=0):
         r = self.rng
         out = []
+        if typ and self.r2.random() < 0.35:
+            # objects that go to the corners themselves: passive objects with full-row attributes, adaptive objects changing
+            # colours at column 39, double size in the last row / column relative to wherever they get invoked
+            tags = set()
+            out += cell_corners(self.r2, list(self.s1.values()), tags, in_object=True)
+            self.corners |= {t + "_type%d" % typ for t in tags}
         for _ in range(r.randrange(0, 12)):
             k = r.random()
             if k < 0.2:
@@ -579,11 +658,34 @@ class L25:
         out.append((40 + (row % 24), 0x04, col))
         if r.random() < 0.3:
             out.append((r.choice([0, 10, 39, r.randrange(40)]), r.choice([0x09, 0x00, 0x03, 0x0C]), r.randrange(0x20, 0x80)))
+        orow = ocol = 0
         if r.random() < 0.3:
-            out.append((40 + r.choice([0, 1, 12, 23, r.randrange(24)]), 0x10, r.choice([0, 1, 39, 40, 71, 72, r.randrange(128)])))
+            orow, ocol = r.choice([0, 1, 12, 23, r.randrange(24)]), r.choice([0, 1, 39, 40, 71, 72, r.randrange(128)])
+            out.append((40 + orow, 0x10, ocol))
+        r2 = self.r2
+        if r2.random() < 0.3:
+            out = [t for t in out if t[1] != 0x10]
+            if r2.random() < 0.4:
+                # the first row / column outside the page with the rest of the position inside: inv_row 25 (or 24) at columns 30 ... 39
+                row, col = r2.choice([24, 2, 23]), r2.choice([0, 30, 39])
+                orow, ocol = (25 - row if r2.random() < 0.7 else 24 - row), r2.choice([30, 35, 39]) - min(col, 30)
+                out[0] = (40 + (row % 24), 0x04, col)
+                self.corners.add("invoke_row25_right" if row + orow == 25 else "invoke_row24_right")
+            else:
+                orow, ocol = r2.choice([0, 23, 24 - row, 25 - row]) % 24, r2.choice([0, 39, 71, 39 - col, 40 - col]) % 72
+            out.append((40 + orow, 0x10, ocol))
+        if ocol >= 72: ocol = orow = 0                                       # invalid: the modifier is ignored
+        if row + orow >= 25 or col + ocol >= 40: self.corners.add("invoke_outside_page")
+        if row + orow == 24: self.corners.add("invoke_at_row24")
+        if col + ocol == 39: self.corners.add("invoke_at_col39")
+        if row + orow == 25 or col + ocol == 40: self.corners.add("invoke_first_outside")
         kind = kind or r.choice(["gpop", "gpop", "pop", "pop", "local"])
         if kind == "local":
-            out.append((40 + r.randrange(8), 0x10 + r.randrange(1, 4), (r.randrange(8) << 4) | r.choice([0, 5, 12, 13, 15])))
+            adr, typ, dat = 40 + r.randrange(8), r.randrange(1, 4), (r.randrange(8) << 4) | r.choice([0, 5, 12, 13, 15])
+            if self.r2.random() < 0.3: adr, dat = 40 + 8 + 1, self.r2.choice([0x00, 0x0C, 0x10, 0x7C])   # designation 16 ...: enh[208] and behind
+            out.append((adr, 0x10 + typ, dat))
+            if (adr & 0x18) == 8 and ((dat >> 4) + ((adr & 1) << 4)) * 13 + (dat & 15) >= 208 and (dat & 15) <= 12:
+                self.corners.add("local_object_at_end_of_enh")
             return out
         page = self.gpop if kind == "gpop" else self.pops[self.pop_of[page_of_lop]]
         objs = self.defs[page]["objs"]
@@ -631,6 +733,10 @@ class L25:
         trips = []
         if r.random() < 0.9:
             for _ in range(r.randrange(1, 5)):
+                if self.r2.random() < 0.35:
+                    tags = set()
+                    trips += cell_corners(self.r2, list(self.s1.values()), tags)
+                    self.corners |= tags
                 k = r.random()
                 if k < 0.6: trips += self.invocation(page)
                 elif k < 0.85:
@@ -869,6 +975,15 @@ class L25:
                 elif k == 5: ops.append("classify %x" % self.pgno(r.choice(self.lops + [self.gpop, self.drcs, 0xFE])))
                 elif k == 6: ops.append("title %x 0" % self.pgno(r.choice(self.lops)))
                 else: ops.append("cached %x %x" % (self.pgno(r.choice([self.gpop, self.drcs] + self.pops)), r.choice([0, 0x3F7F])))
+        if self.corners:
+            # every level 1.5 / 2.5 / 3.5 with 1 / 24 / 25 rows, and something that reads the cells, DRCS planes, colours
+            p = self.r2.choice(self.lops)
+            for lvl in (1, 2, 3):
+                rows = self.r2.choice([1, 24, 25, 25])
+                ops.append("fetch %x 3f7f %d %d %d" % (self.pgno(p), lvl, rows, self.r2.randrange(2)))
+                self.corners.add("fetch_l%s_rows%d" % ({1: "15", 2: "25", 3: "35"}[lvl], rows))
+                ops.append(self.r2.choice(["render 32 1 1", "export png -1", "export html -1", "print 1 4000", "resolve", "export text -1",
+                                     "region 32 38 23 2 2", "region 32 39 24 1 1"]))
         if r.random() < 0.15:
             ops.append("fetch %x 3f7f %d 25 1" % (self.pgno(r.choice([self.gpop, self.drcs, 0xFE, 0xFD])), r.randrange(4)))
         return ops
@@ -1095,4 +1210,7 @@ def enh_case(rng, kind):
             ops += search_ops(rng, Net(rng))
         if rng.random() < 0.04:
             ops.append("chsw %d" % rng.randrange(3))
+    for n in nets:
+        for c in getattr(n, "corners", ()):
+            CELL_REACH[c] = CELL_REACH.get(c, 0) + 1
     return ops
